@@ -91,7 +91,10 @@ def _called_models(ex):
 
 
 def run_obligations(rep, obs, timeout_s, covers=()):
-    res = smt.discharge(list(obs) + list(covers), timeout_s=timeout_s)
+    # covers are vacuity guards (satisfiability of preconditions / reachability of returns): a short budget of their
+    # own -- with quantified invariants a `sat` answer needs a model and can take the solvers very long; an undecided
+    # cover is reported in the notes and is not a verdict
+    res = smt.discharge(list(obs), timeout_s=timeout_s) + smt.discharge(list(covers), timeout_s=min(30, timeout_s))
     # second chance for what the budget left open (a loaded machine stretches every query): only those few,
     # few at a time, with a doubled budget.  A verdict is only ever upgraded from undecided.
     again = [k for k, (ob, v, _i) in enumerate(res) if v == 'undecided' and ob.kind != 'cover']
